@@ -358,6 +358,8 @@ impl<Sink: TokenSink> Tokenizer<Sink> {
     fn run(&self, input: &BufferQueue) -> TokenizerResult<Sink::Handle> {
         if self.opts.profile {
             loop {
+                #[cfg(feature = "verif")]
+                markup5ever::verif::tick(0);
                 let state = self.state.get();
                 let old_sink = self.time_in_sink.get();
                 let (run, mut dt) = time!(self.step(input));
@@ -384,6 +386,8 @@ impl<Sink: TokenSink> Tokenizer<Sink> {
             }
         } else {
             loop {
+                #[cfg(feature = "verif")]
+                markup5ever::verif::tick(0);
                 match self.step(input) {
                     ProcessResult::Continue => (),
                     ProcessResult::Suspend => break,
@@ -627,6 +631,23 @@ impl<Sink: TokenSink> Tokenizer<Sink> {
     }
 }
 //§ END
+
+#[cfg(feature = "verif")]
+impl<Sink: TokenSink> Tokenizer<Sink> {
+    /// Verification hook: the hidden state that must survive a suspension,
+    /// as (state, reconsume, ignore_lf, temp_buf length, character reference
+    /// in progress, discard_bom still armed).
+    pub fn verif_state(&self) -> (states::State, bool, bool, usize, bool, bool) {
+        (
+            self.state.get(),
+            self.reconsume.get(),
+            self.ignore_lf.get(),
+            self.temp_buf.borrow().len(),
+            self.char_ref_tokenizer.borrow().is_some(),
+            self.discard_bom.get(),
+        )
+    }
+}
 
 // Shorthand for common state machine behaviors.
 macro_rules! shorthand (
@@ -1806,6 +1827,8 @@ impl<Sink: TokenSink> Tokenizer<Sink> {
         assert!(input.is_empty());
 
         loop {
+            #[cfg(feature = "verif")]
+            markup5ever::verif::tick(1);
             match self.eof_step() {
                 ProcessResult::Continue => (),
                 ProcessResult::Suspend => break,
